@@ -1,4 +1,4 @@
-\* generated by the builder of C02/C08; see MCSearchers.tla for the families
+\* generated with the builder script of C02/C08; families: MCSearchers.tla
 SPECIFICATION Spec
 CONSTANTS
   SegSizes <- Segs22
@@ -8,7 +8,9 @@ CONSTANTS
   HeapTakeover = 0
   MaxCalls = 4
   NTerms = 3
-  Queries <- QDisj
+  Family = "disj"
+  DropK1 = FALSE
+  Queries <- MCQueries
   FirstAdvanceOK <- FirstAdvNoQ2
 VIEW View
 INVARIANT ResultOK
